@@ -116,3 +116,128 @@ DEFAULT_LEVEL_NOTE = (
     "behind the oracles; costs are exact reals, IEEE rounding and numba-compiled code are outside.")
 DEFAULT_TECHNIQUE_SHORT = "symbolic execution of the real Python code with z3 (bounded, path-tree closure)"
 NOT_APPLICABLE = {}
+
+PROPS["C07"] = sweep_prop(
+    ["C07."], classes=REVOLVE_FAMILY,
+    trusted=["the recurrences Opt_0 / Opt_inf / Opt_k of Aupy et al. (2016) and Herrmann & Pallez (2020), "
+             "transcribed in vcheck/oracles.py, are the optimum over all schedules (published theorems)",
+             "z3"])
+
+
+# ---------------------------------------------------------------------------
+# lemma based properties
+
+def _job(h, name, params, w=1, deadline=900):
+    return {"harness": h, "name": "%s/%s" % (h, name), "params": params, "weight": w,
+            "deadline": deadline}
+
+
+def c10_jobs(tier):
+    from .lemmas import FIN_INSTANCES
+    L = 4 if tier == "quick" else 6
+    return [_job("fin", "%s/L=%d" % (inst, L), {"inst": inst, "L": L}, w=10 if inst == "SingleDiskCopy" else 1,
+                 deadline=1800) for inst in FIN_INSTANCES]
+
+
+PROPS["C10"] = {
+    "fatal": ["C10."], "jobs": c10_jobs,
+    "bounds": lambda tier: {"history_length": 4 if tier == "quick" else 6,
+                            "post_actions_compared": 4,
+                            "k": "every finalize argument is an unbounded symbolic integer",
+                            "TwoLevel.period": "unbounded symbolic integer >= 1",
+                            "offline_instances": "one small instance per offline class (n=4)"},
+    "outside": ["histories longer than the bound", "TwoLevel: actions after EndForward with a symbolic period"],
+    "trusted": ["oracles.fin_spec (eight-line specification of finalize)", "z3"],
+    "stubs": STUBS, "assumptions": [],
+    "technique": "symbolic execution with z3: history shape enumerated by the solver, finalize arguments "
+                 "unbounded symbolic integers, each path covers an interval of k",
+}
+
+
+def c18_jobs(tier):
+    from .lemmas import KINDS
+    jobs = sweep_jobs(tier)
+    for ka in KINDS:
+        for kb in KINDS:
+            jobs.append(_job("action_eq", "%s-%s" % (ka, kb), {"ka": ka, "kb": kb}))
+    for k in KINDS:
+        jobs.append(_job("action_value", k, {"kind": k}, w=5))
+    for k in ("Forward", "Reverse"):
+        jobs.append(_job("action_contains", k, {"kind": k}))
+    return jobs
+
+
+PROPS["C18"] = {
+    "fatal": ["C18."], "jobs": c18_jobs,
+    "bounds": lambda tier: {"emitted_actions": sweep_bounds(tier),
+                            "constructed_pairs": "all 36 kind pairs; integer fields unbounded symbolic, "
+                                                 "flags and storages enumerated",
+                            "repr/len/iter": "integer fields in 0..6 or sys.maxsize",
+                            "membership": "n0, n1, x unbounded symbolic integers"},
+    "outside": SWEEP_OUTSIDE + ["non-integer / non-StorageType arguments of constructed actions"],
+    "trusted": ["z3"], "stubs": STUBS, "assumptions": [],
+    "technique": "symbolic execution with z3: equality / membership laws decided over all integers; "
+                 "emitted actions type-checked in the concrete twin run of every path of the sweep",
+}
+
+
+def nadv_jobs(tier):
+    q = tier == "quick"
+    jobs = []
+    for traj in ("maximum", "revolve"):
+        for s in range(1, (7 if q else 13)):
+            if s <= 2:
+                nmax = 300 if q else 3000       # the optimum is quadratic in n: O(n) paths
+            else:
+                nmax = 2000 if q else 10 ** 6
+            jobs.append(_job("nadv", "%s/s=%d/n<=%d" % (traj, s, nmax),
+                             {"s": s, "trajectory": traj, "nmax": nmax},
+                             w=100 if s in (2, 3) else 10, deadline=1800 if q else 7000))
+    return jobs
+
+
+def c05_jobs(tier):
+    q = tier == "quick"
+    jobs = nadv_jobs(tier)
+    jobs += sweep_jobs(tier, classes=("Multistage", "Revolve"))
+    for n in range(1, (14 if q else 40) + 1):
+        jobs.append(_job("optim_helper", "n=%d" % n, {"n": n}, w=n))
+    return jobs
+
+
+PROPS["C05"] = {
+    "fatal": ["C05."], "jobs": c05_jobs,
+    "bounds": lambda tier: {
+        "n_advance lemma": {"n": "symbolic, 2..2000 (s<=2: 300)" if tier == "quick" else "symbolic, 2..10^6 (s<=2: 3000)",
+                            "s": [1, 6 if tier == "quick" else 12], "trajectory": "both"},
+        "streams": {k: v for k, v in sweep_bounds(tier).items() if k in ("Multistage", "Revolve")},
+        "optimal_steps_binomial": {"n": [1, 14 if tier == "quick" else 40], "s": "symbolic, unbounded"}},
+    "outside": ["s > 12 in the kernel lemma", "n beyond the bounds",
+                "that the Griewank-Walther closed form is the optimum over ALL schedules (GW2000 Prop. 1, trusted)"],
+    "trusted": ["Griewank & Walther (2000), Proposition 1", "oracles.E_bin closed form (cross-checked against the "
+                "first-principles recurrence oracles.T_bin at start-up)", "z3"],
+    "stubs": STUBS, "assumptions": [COST_ASSUMPTION],
+    "technique": "symbolic execution with z3: n_advance run on a symbolic n, each path fixes the binomial level "
+                 "so the step is affine in n on an interval and the Bellman equality is decided for the whole "
+                 "interval; streams and the published helper checked against the independent closed form",
+}
+
+
+def c06_jobs(tier):
+    q = tier == "quick"
+    jobs = sweep_jobs(tier, classes=("Mixed",))
+    for n in range(1, (14 if q else 36) + 1):
+        jobs.append(_job("mixed_planner", "n=%d" % n, {"n": n}, w=n))
+    return jobs
+
+
+PROPS["C06"] = {
+    "fatal": ["C06."], "jobs": c06_jobs,
+    "bounds": lambda tier: {"streams": sweep_bounds(tier)["Mixed"],
+                            "planner": {"n": [1, 14 if tier == "quick" else 36], "s": "symbolic, unbounded"}},
+    "outside": ["n beyond the bounds", "that the recurrence of Maddison (2024) is the optimum over ALL schedules (trusted)"],
+    "trusted": ["Maddison (2024) section 3: oracles.E_mix is a first-principles transcription", "z3"],
+    "stubs": STUBS, "assumptions": [],
+    "technique": "symbolic execution with z3 over (n, s) boxes with s unbounded; forward-step totals of the "
+                 "real stream and the planner's Bellman equation checked against an independent recurrence",
+}
